@@ -25,7 +25,7 @@ import math
 
 from sa.checks import _instr as I
 from sa.engine import peval
-from sa.engine.index import AnalysisError, norm, own_nodes, parent
+from sa.engine.index import AnalysisError, last_attr, norm, own_nodes, parent
 
 TR = "pynguin.instrumentation.tracer"
 CF = "pynguin.instrumentation.controlflow"
@@ -143,19 +143,39 @@ def check(ctx) -> None:
     cne = repo.func(CF, "CFG._create_nodes_and_edges")
     ctx.analysed(cne)
     lab = None
+    # roles by data flow: which local holds the jump target / the fall-through block / the branch type, and which
+    # locals are paired with the edge values True / False
+    role = {}
     for n in own_nodes(cne):
-        if isinstance(n, ast.If) and norm(n.test) in ("is_true_branch", "not is_true_branch"):
-            body = {norm(s.targets[0]): norm(s.value) for s in n.body if isinstance(s, ast.Assign)}
-            other = {norm(s.targets[0]): norm(s.value) for s in n.orelse if isinstance(s, ast.Assign)}
-            if norm(n.test).startswith("not "):
+        if isinstance(n, ast.Assign) and len(n.targets) == 1 and isinstance(n.targets[0], ast.Name):
+            v = norm(n.value)
+            if v.endswith(".get_jump()"):
+                role.setdefault(n.targets[0].id, "jump")
+            elif v.endswith(".next_block"):
+                role.setdefault(n.targets[0].id, "fall")
+            elif isinstance(n.value, ast.Call) and last_attr(n.value) == "get_branch_type":
+                role[n.targets[0].id] = "type"
+    edge_of = {}
+    for n in own_nodes(cne):
+        if isinstance(n, (ast.List, ast.Tuple)) and len(n.elts) == 2 and all(isinstance(e, ast.Tuple) and len(e.elts) == 2 and isinstance(e.elts[0], ast.Name) and isinstance(e.elts[1], ast.Constant) and isinstance(e.elts[1].value, bool) for e in n.elts):
+            for e in n.elts:
+                edge_of[e.elts[0].id] = e.elts[1].value
+    for n in own_nodes(cne):
+        if isinstance(n, ast.If):
+            t = n.test.operand if isinstance(n.test, ast.UnaryOp) and isinstance(n.test.op, ast.Not) else n.test
+            if not (isinstance(t, ast.Name) and role.get(t.id) == "type"):
+                continue
+            body = {edge_of.get(norm(s.targets[0])): role.get(norm(s.value)) for s in n.body if isinstance(s, ast.Assign)}
+            other = {edge_of.get(norm(s.targets[0])): role.get(norm(s.value)) for s in n.orelse if isinstance(s, ast.Assign)}
+            if t is not n.test:
                 body, other = other, body
-            if body.get("true_branch") == "target_block" and body.get("false_branch") == "next_block" and other.get("true_branch") == "next_block" and other.get("false_branch") == "target_block":
+            if body.get(True) == "jump" and body.get(False) == "fall" and other.get(True) == "fall" and other.get(False) == "jump":
                 lab = True
-            elif body.get("true_branch") == "next_block" and other.get("true_branch") == "target_block":
+            elif body.get(True) == "fall" and other.get(True) == "jump":
                 lab = False
     if lab is None:
         raise AnalysisError("CFG._create_nodes_and_edges: labelling of true/false branches not recognised")
-    pairs = next((n for n in own_nodes(cne) if isinstance(n, ast.For) and "true_branch, True" in norm(n.iter) and "false_branch, False" in norm(n.iter)), None)
+    pairs = sorted(edge_of.values()) == [False, True] or None
     ctx.check("C03.polarity", cne, pairs is not None, "CFG._create_nodes_and_edges no longer labels the edge to `true_branch` with True and the edge to `false_branch` with False", what="edge to true_branch is labelled True", stmt="[cfg labels]")
 
     for v in I.VERSIONS:
@@ -274,7 +294,9 @@ def _operands_and_registration(ctx, repo, v) -> None:
     allowed = 0
     for r in rets:
         t = norm(r.test)
-        if t in ("maybe_jump is None", "not maybe_jump.is_cond_jump()") or "ast_info is not None" in t:
+        # the local that holds the block's last instruction: `<x> = node.try_get_instruction(JUMP_OP_POS)` (or like)
+        jump_locals = {norm(a.targets[0]) for a in own_nodes(vn) if isinstance(a, ast.Assign) and len(a.targets) == 1 and isinstance(a.value, ast.Call) and "instruction" in (last_attr(a.value) or "")}
+        if any(t in (f"{j} is None", f"not {j}.is_cond_jump()") for j in jump_locals) or "ast_info is not None" in t:
             allowed += 1
         else:
             ctx.fail("C03.registered", r, f"[{v}] visit_node skips a basic block under `{t[:80]}`: conditional jumps of such blocks are never registered as predicates", stmt=f"[{v} visit_node skip] {t[:60]}")
